@@ -70,12 +70,12 @@ def ref_classify(stream):
             return ("DONTCARE", "incomplete")
         vc, fp = stream[12], stream[13]
         (ln,) = struct.unpack("!H", stream[14:16])
+        if len(stream) < 16 + ln:
+            return ("DONTCARE", "incomplete")  # a receiver may wait for the announced length before judging
         if vc >> 4 != 2:
             return ("INVALID", "v2-version")
         if vc & 15 not in (0, 1):
             return ("INVALID", "v2-command")
-        if len(stream) < 16 + ln:
-            return ("DONTCARE", "incomplete")
         if vc & 15 == 0:
             return ("VALID", None, None, 16 + ln)
         fam, proto = fp & 0xF0, fp & 15
